@@ -744,8 +744,9 @@ def run_unit(desc, loader=None, only=None):
         if res is None:
             rep["bounded"].append({"function": "ownrun table", "bound": "did not run: " + str(err)[:200], "cases": 0})
         else:
-            rep["bounded"].append({"function": "ownrun table", "bound": "70 pipeline shapes x 16 termination patterns of two cold sources x every distinct dispose time "
-                                   "(+ a subscriber whose terminal callback raises), TestScheduler", "cases": res.get("cases", 0),
+            rep["bounded"].append({"function": "ownrun table", "bound": f"{res.get('shapes', 74)} pipeline shapes x 16 termination patterns of two cold sources x every distinct dispose time "
+                                   "(+ a subscriber whose terminal callback raises, + the subscriber unsubscribing inside its 1st / 2nd / 3rd on_next with "
+                                   "every user function of the shape logging its calls), TestScheduler", "cases": res.get("cases", 0),
                                    "mismatches": len(res.get("found", [])), "role": "cross-check of the ownership analysis against CPython"})
             if res.get("found") and all(r["verdict"] == "proved" for r in results):
                 rep["crash"] = f"cross-check failed: the ownership analysis passed but the native run found {json.dumps(res['found'][0], default=repr)[:600]}"
